@@ -123,4 +123,37 @@ theorem fit_terminates (c : Csr Rat) (hw : ∀ p, 0 ≤ c.data.getD p 0) (values
   · rw [length_allLists]
     simpa [fitBound] using hf
 
+/-! ### the loop with a bound on the number of sweeps (`n_iter ≥ 0`; the default `-1` is `n + 1` since /repo be74e3a8) -/
+
+/-- with `n_iter = k` the loop makes at most `k` sweeps and `k + 1` evaluations of its test suffice — whatever the sweep
+    does -/
+theorem propLoop_capped (step : List Int → List Int) (key : List Int → List Int) :
+    ∀ (k fuel t : Nat) (seen : List (List Int)) (labels : List Int), k + 1 ≤ fuel →
+      ∃ r, propLoop step key fuel (some k) t seen labels = some r ∧ r.2 ≤ t + k := by
+  intro k
+  induction k with
+  | zero =>
+    intro fuel t seen labels hf
+    obtain ⟨f, rfl⟩ : ∃ f, fuel = f + 1 := ⟨fuel - 1, by omega⟩
+    exact ⟨(labels, t), by simp [propLoop], by simp⟩
+  | succ k ih =>
+    intro fuel t seen labels hf
+    obtain ⟨f, rfl⟩ : ∃ f, fuel = f + 1 := ⟨fuel - 1, by omega⟩
+    simp only [propLoop]
+    split
+    · exact ⟨(labels, t), rfl, by simp⟩
+    · obtain ⟨r, hr, hle⟩ := ih f (t + 1) (key labels :: seen) (step labels) (by omega)
+      refine ⟨r, ?_, by omega⟩
+      simpa using hr
+
+/-- `Propagation.fit` with a bound `k` on the number of sweeps returns after at most `k` sweeps -/
+theorem fit_capped (c : Csr Rat) (values : List Int) (a : PropArgs) (k : Nat) (hk : a.nIter = some k) (fuel : Nat)
+    (hf : k + 1 ≤ fuel) : ∃ r, fit c values a fuel = some r ∧ r.2 ≤ k := by
+  unfold fit
+  simp only [hk]
+  obtain ⟨r, hr, hle⟩ := propLoop_capped
+    (fun l => voteUpdate (withWeights c a.weighted) l (reorder (instantiateVars values).2 a.sigma))
+    (fun l => config l (reorder (instantiateVars values).2 a.sigma)) k fuel 0 [] (instantiateVars values).1 hf
+  exact ⟨r, hr, by omega⟩
+
 end SkNet.Terminate
